@@ -12,6 +12,15 @@ thread_local! {
     static FEATURES: RefCell<Option<Features>> = const { RefCell::new(None) };
 }
 
+impl Features {
+    /// Every feature enabled in either set.
+    pub fn union(self, other: Self) -> Self {
+        Self {
+            stack: self.stack || other.stack,
+        }
+    }
+}
+
 pub fn stack() -> bool {
     with_features(|features| features.stack)
 }
